@@ -15,12 +15,12 @@ CONF = {
                           ('brackets-deep', ('H_E', 'M_E0', 'T_PM', 'O_PM', 6, 4), 4000, (1500, 30)),
                           ('loops-only', ('H_E', 'M_E0', 'T_PM', 'O_L02', 6, 3), 6000),
                           ('struct-deep', ('H_E', 'M_E1', 'T_E1', 'O_E', 7, 4), 2500, (1000, 40)),
-                          ('struct-macro-ovr', ('H_E', 'M_E2', 'T_E1', 'O_E0', 2, 3), 1500)],
+                          ('struct-macro-ovr', ('H_E', 'M_E2', 'T_E1', 'O_E0', 2, 4), 1500)],
                    thorough=[('struct', ('H_E', 'M_E0', 'T_E', 'O_E', 5, 4), 120000), ('struct-macro', ('H_E', 'M_E1', 'T_E1', 'O_E', 4, 3), 60000),
                              ('brackets', ('H_E', 'M_E0', 'T_PM', 'O_PM', 6, 4), 150000),
                              ('loops-only', ('H_E', 'M_E0', 'T_PM', 'O_L02', 8, 4), 100000),
                              ('struct-deep', ('H_E', 'M_E1', 'T_E1', 'O_E', 9, 5), 60000, (20000, 50)),
-                             ('struct-macro-ovr', ('H_E', 'M_E2', 'T_E1', 'O_E0', 3, 3), 40000)]),
+                             ('struct-macro-ovr', ('H_E', 'M_E2', 'T_E1', 'O_E0', 3, 4), 40000)]),
     'gates': dict(quick=[('gates-wide', ('H_G', 'M_G', 'T_G', 'O_G', 3, 3, 'NoGates'), 3000),
                          ('gates-deep', ('H_G', 'M_E0', 'T_G2', 'O_G2', 5, 2, 'NoGates'), 2000),
                          ('gates-sim', ('H_G', 'M_G', 'T_G', 'O_G', 9, 4, 'NoGates'), 2500, (700, 40)),
